@@ -13,6 +13,7 @@ CONSTANTS
   Deterministic = FALSE
   Preamble <- NoPreamble
   Traffic = TRUE
+  Faults = FALSE
   Emit = FALSE
 VIEW MCView
 INVARIANTS TypeOK P_C08_ExactlyOnce P_C08_Converged P_C08_BaseCount P_C08_NoStaleAccept
